@@ -5,4 +5,5 @@ CONSTANTS
   DEV_ReassignKeepsOld = FALSE
   DEV_RemoveNeedsLanelets = FALSE
   DEV_ForgetsCentre = FALSE
+  DEV_NetMoveKeepsIndex = FALSE
 ACTION_CONSTRAINT Emit
